@@ -58,7 +58,8 @@ def definitional_cycle(texts):
     event = re.compile(
         r"(?P<assign>(?P<an>\.|[A-Za-z_$][A-Za-z_0-9$.]*)\s*==?(?!=)(?P<ae>[^\n]*))"
         r"|(?P<label>(?P<ln>[A-Za-z_0-9$.]+)\s*::?)"
-        r"|(?P<dir>(?<![A-Za-z0-9_$.])(?P<dn>\.?(?:blkb|blkw|align|repeat|link|ascii|asciz|rad50|even|odd|include)|insert_file)\b(?P<de>[^\n]*))",
+        # (a dotted directive name also counts when it is glued to the word before it: 'aslb.ascii <lab>' is 'aslb' + '.ascii <lab>')
+        r"|(?P<dir>(?P<dn>\.(?:blkb|blkw|align|repeat|link|ascii|asciz|rad50|even|odd|include)|(?<![A-Za-z0-9_$.])(?:blkb|blkw|align|repeat|link|ascii|asciz|rad50|even|odd|include|insert_file))\b(?P<de>[^\n]*))",
         re.I)
     for text in texts:
         # drop comments and radix / complement prefixes (so that '^Cx1' mentions x1); fold a '.repeat' body into its operand
@@ -69,7 +70,7 @@ def definitional_cycle(texts):
         text = re.sub(r"\n(?:[ \t]*\n)*(?=[ \t]*[-+*/%&|!^_(<>,])", " ", text)
         text = re.sub(r"(?<=[-+*/%&|!^_,(<])[ \t]*\n(?:[ \t]*\n)*", " ", text)
         # a directive whose operand starts on the next line ('.ascii' + newline + operands)
-        text = re.sub(r"(?i)((?<![A-Za-z0-9_$.])\.?(?:blkb|blkw|align|repeat|link|ascii|asciz|rad50|include)|insert_file|=)[ \t]*\n(?:[ \t]*\n)*", r"\1 ", text)
+        text = re.sub(r"(?i)(\.(?:blkb|blkw|align|repeat|link|ascii|asciz|rad50|include)|(?<![A-Za-z0-9_$.])(?:blkb|blkw|align|repeat|link|ascii|asciz|rad50|include|insert_file)|=)[ \t]*\n(?:[ \t]*\n)*", r"\1 ", text)
         text = re.sub(r"\^[CcXxOoBbDdRr]", " ", text)
         pos = 0
         while True:
